@@ -168,6 +168,9 @@ func runC06(t *testing.T, r *engine.Run) {
 		for _, k := range w.parkedHooks() {
 			acts = append(acts, "release:"+k)
 		}
+		if parked := w.parkedHooks(); len(parked) > 0 {
+			acts = append(acts, "stale-writer", "stale-writer", "stale-writer")
+		}
 		a := acts[tp.Choose(len(acts), "act")]
 		tp.Note(strings.SplitN(a, "/", 2)[0])
 		var ci int
@@ -182,6 +185,24 @@ func runC06(t *testing.T, r *engine.Run) {
 					r.Probe("mutation_while_generator_frozen")
 					r.NonTriv = true
 				}
+			}
+		case a == "stale-writer":
+			// the classic stale-writer interleaving, placed deliberately: the endpoints of the frozen
+			// generator's service change, the invalidations of that change run (at once and with the
+			// debounced push), and only then the frozen generator is allowed to insert its old value
+			k := w.parkedHooks()[0]
+			parts := strings.Split(k, "|")
+			host := parts[len(parts)-1]
+			if m := wd.endpointChange(tp, host); m != nil && m.apply(inst) == nil {
+				synctest.Wait()
+				nmut++
+				r.Logf("t=%v %s (while %s is frozen)", w.now(), m.desc, k)
+				r.Probe("mutation_while_generator_frozen")
+				r.Probe("stale_writer_scenario")
+				r.NonTriv = true
+				w.advance(db.max + db.after + 1_000_000)
+				w.releaseHook(k)
+				r.Probe("frozen_generator_released")
 			}
 		case a == "gap":
 			w.gap(tp, db)
